@@ -353,7 +353,7 @@ pub fn run(args: &Args) -> i32 {
             break;
         }
         let mut rng = Rng::new(args.case_seed(c));
-        case(&mut rng, &mut pools, &mut rep, c);
+        guard_case(&mut rep, c, |rep| case(&mut rng, &mut pools, rep, c));
     }
     rep.finish();
     0
